@@ -96,7 +96,75 @@ def arms_of(src, impl_head):
 
 ENTRY = re.compile(r'\((\d[\d_]*), (.*), (required|option|required_vec)\)$')
 
-def translate_arm(enum, short, name, fields, body, L, meta):
+def enum_field_types(msgs, enum):
+    """variant -> {field: declared type} of `enum <enum><'a> { Variant { field: Type, .. }, .. }`"""
+    m = re.search(r'enum %s(?:<[^>]*>)? \{' % enum, msgs)
+    if not m: raise TranslateError("enum %s not found" % enum)
+    body = strip_comments(msgs[m.end() - 1: match_brace(msgs, m.end() - 1)])[1:-1]
+    out, pos = {}, 0
+    while True:
+        mm = re.compile(r'\s*((?:#\[[^\]]*\]\s*)*)(\w+)\s*\{').match(body, pos)
+        if not mm:
+            if body[pos:].strip(): raise TranslateError("enum %s: unparsed text %r" % (enum, body[pos:pos + 60]))
+            break
+        end = match_brace(body, mm.end() - 1)
+        fs = {}
+        for part in split_top(body[mm.end():end - 1]):
+            if not part: continue
+            k, t = part.split(':', 1)
+            fs[k.strip()] = ' '.join(t.split())
+        out[mm.group(2)] = fs
+        pos = end
+        m3 = re.compile(r'\s*,').match(body, pos)
+        if m3: pos = m3.end()
+    return out
+
+def check_final_onion_hop_data(msgs):
+    w = re.search(r'impl Writeable for FinalOnionHopData \{(.*?)\n\}', msgs, re.S)
+    r = re.search(r'impl Readable for FinalOnionHopData \{(.*?)\n\}', msgs, re.S)
+    if not w or 'self.payment_secret.0.write(w)?; HighZeroBytesDroppedBigSize(self.total_msat).write(w)' not in norm(w.group(1)):
+        raise TranslateError("impl Writeable for FinalOnionHopData changed (expected [u8; 32] secret then HighZeroBytesDroppedBigSize(total_msat))")
+    if not r or 'let secret: [u8; 32] = Readable::read(r)?; let amt: HighZeroBytesDroppedBigSize<u64> = Readable::read(r)?; Ok(Self { payment_secret: PaymentSecret(secret), total_msat: amt.0 })' not in norm(r.group(1)):
+        raise TranslateError("impl Readable for FinalOnionHopData changed")
+
+def check_hzbd(ser):
+    """HighZeroBytesDroppedBigSize write / read shape (util/ser.rs) and the widths it is instantiated with"""
+    b = norm(ser)
+    if 'writer.write_all(&self.0.to_be_bytes()[(self.0.leading_zeros() / 8) as usize..$len])' not in b:
+        raise TranslateError("HighZeroBytesDroppedBigSize::write changed")
+    if 'if total_read_len == 0 || buf[$len] != 0 { let first_byte = $len - ($len - total_read_len); let mut bytes = [0; $len]; bytes.copy_from_slice(&buf[first_byte..first_byte + $len]); Ok(HighZeroBytesDroppedBigSize(<$val_type>::from_be_bytes(bytes))) } else { Err(DecodeError::InvalidValue) }' not in b:
+        raise TranslateError("HighZeroBytesDroppedBigSize::read changed")
+    w = {}
+    for t, n in re.findall(r'impl_writeable_primitive!\((\w+), (\d+)\);', ser): w[t] = int(n)
+    if w.get('u64') != 8 or w.get('u32') != 4: raise TranslateError("impl_writeable_primitive! widths changed: %s" % w)
+    return w
+
+INT_W = {'u64': 8, 'u32': 4, 'u16': 2}
+def bare_type_enc(t, what):
+    t = re.sub(r"&'a ", '', t)
+    m = re.fullmatch(r'Option<(.*)>', t)
+    if m: t = m.group(1)
+    t = re.sub(r"&'a ", '', t)
+    if t in INT_W: return '.be %d' % INT_W[t]
+    if t == 'FinalOnionHopData': return '.secretTotal'
+    if t == 'PublicKey': return '.fixed 33'
+    if t == 'PaymentPreimage': return '.fixed 32'
+    if t in ('TrampolineOnionPacket', 'InvoiceRequest', 'WithoutLength<Vec<u8>>', 'Vec<u8>'): return '.raw'
+    raise TranslateError("%s: no value encoding known for type %s" % (what, t))
+
+def writer_enc(ex, f, ftypes, what):
+    t = ftypes.get(f)
+    if t is None: raise TranslateError("%s: field %s has no declared type" % (what, f))
+    m = re.fullmatch(r'HighZeroBytesDroppedBigSize\(\*?(\w+)\)', ex)
+    if m:
+        if t not in INT_W: raise TranslateError("%s: HighZeroBytesDroppedBigSize of a %s" % (what, t))
+        return '.hzbd %d' % INT_W[t]
+    if re.fullmatch(r'\w+(\.as_ref\(\))?\.map\(\|m\| WithoutLength\(m\)\)', ex) or re.fullmatch(r'WithoutLength\(\w+\)', ex): return '.raw'
+    if ex == '*' + f and 'Vec<u8>' in t: return '.raw'
+    if ex == f: return bare_type_enc(t, what)
+    raise TranslateError("%s: value expression `%s` not understood" % (what, ex))
+
+def translate_arm(enum, short, name, fields, body, L, meta, ftypes):
     stmts = split_stmts(body)
     lets, kinds = [], {}          # kinds: field -> 'req' | 'opt' | 'tlvs'
     extra_name, encode, sorted_seen = None, None, False
@@ -154,6 +222,11 @@ def translate_arm(enum, short, name, fields, body, L, meta):
                                                    '; then the extra TLVs `custom_tlvs`' if extra_name else ''),
           'def write%s %s : TlvOut :=' % (ctor, params)] + lets + \
          ['  ⟨[%s], %s⟩' % (', '.join(recs), 'custom_tlvs' if extra_name else '[]'), '']
+    what = '%s::%s' % (enum, name)
+    encs = [(t, writer_enc(ex, f, ftypes, what)) for t, f, ty, ex in tys] + [(t, bare_type_enc(ftypes[f], what)) for f, t in tlv_lets.values()]
+    encs.sort()
+    L += ['/-- value encodings of the records `%s` writes (from the value expressions and the declared field types) -/' % what,
+          'def writeEnc%s : List (Nat × ValEnc) := [%s]' % (ctor, ', '.join('(%d, %s)' % e for e in encs)), '']
     meta.append((ctor, '%s.%s' % (short.lower(), name), fields, kinds, [t for t, _, _, _ in tys], dict((v[0], v[1]) for v in tlv_lets.values()), bool(extra_name), sorted_seen))
 
 def writers(L, msgs):
@@ -161,13 +234,14 @@ def writers(L, msgs):
     for enum, head, short in [('OutboundOnionPayload', "impl<'a> Writeable for OutboundOnionPayload<'a>", 'Onion'),
                               ('OutboundTrampolinePayload', "impl<'a> Writeable for OutboundTrampolinePayload<'a>", 'Trampoline')]:
         arms = arms_of(msgs, head)
+        ftypes_all = enum_field_types(msgs, enum)
         seen = [a[0] for a in arms if not a[3]]
         want = {'Onion': ['Forward', 'TrampolineEntrypoint', 'Receive', 'BlindedForward', 'BlindedReceive'],
                 'Trampoline': ['Forward', 'LegacyBlindedPathEntry', 'BlindedForward', 'BlindedReceive']}[short]
         if seen != want: raise TranslateError("%s: variants written outside cfg(test) changed: %s (expected %s)" % (enum, seen, want))
         for name, fields, body, test_only in arms:
             if test_only: continue
-            translate_arm(enum, short, name, fields, body, L, meta)
+            translate_arm(enum, short, name, fields, body, L, meta, ftypes_all.get(name, {}))
     # the sum type of everything a sender can write
     L.append('/-- every hop payload a sender can write (outside cfg(test)); field values are their serialized bytes -/')
     L.append('inductive OutPayload where')
@@ -241,17 +315,30 @@ def reader(L, msgs):
     b = strip_comments(body)
     m = re.search(r'decode_tlv_stream_with_custom_tlv_decode!\(&mut rd, \{(.*?)\}, \|msg_type: u64, msg_reader: &mut FixedLengthReader<_>\| -> Result<bool, DecodeError> \{(.*?)\}\);', b, re.S)
     if not m: raise TranslateError("InboundOnionPayload::read: decode macro call not found")
-    known = []
+    known, rencs = [], []
+    decl = dict((n, ' '.join(t.split())) for n, t in re.findall(r'let mut (\w+): ([^=;]+?) = None;', b))
+    undecl = set(re.findall(r'let mut (\w+) = None;', b))
     for e in split_top(' '.join(m.group(1).split())):
         mm = re.match(r'\((\d[\d_]*), (\w+), ', e)
         if not mm: raise TranslateError("InboundOnionPayload::read: TLV entry not understood: %s" % e)
-        known.append((num(mm.group(1)), mm.group(2)))
+        t, n = num(mm.group(1)), mm.group(2)
+        known.append((t, n))
+        m2 = re.fullmatch(r'\(\d[\d_]*, \w+, \(option, encoding: \((u64|u32|u16), HighZeroBytesDroppedBigSize\)\)\)', e)
+        if m2: rencs.append((t, '.hzbd %d' % INT_W[m2.group(1)]))
+        elif re.fullmatch(r'\(\d[\d_]*, \w+, option\)', e):
+            if n in decl: rencs.append((t, bare_type_enc(decl[n], 'InboundOnionPayload::read field %s' % n)))
+            elif n == 'outer_onion_path_key' and n in undecl and 'outer_onion_path_key.or(update_add_blinding_point)' in b and 'ReadableArgs<(Option<PublicKey>, NS)> for InboundOnionPayload' in msgs:
+                rencs.append((t, '.fixed 33'))      # Option<PublicKey>, inferred from `.or(update_add_blinding_point)`
+            else: raise TranslateError("InboundOnionPayload::read: type of field %s not found" % n)
+        else: raise TranslateError("InboundOnionPayload::read: TLV entry kind not understood: %s" % e)
     clo = norm(m.group(2))
     mm = re.fullmatch(r'if msg_type < (.*?) \{ return Ok\(false\) \} let mut value = Vec::new\(\); msg_reader\.read_to_limit\(&mut value, u64::MAX\)\?; custom_tlvs\.push\(\(msg_type, value\)\); Ok\(true\)', clo)
     if not mm: raise TranslateError("InboundOnionPayload::read: custom TLV closure changed: %s" % clo)
     em0 = Emitter()
     L += ['/-- TLV types `InboundOnionPayload::read` decodes into typed fields: %s -/' % ', '.join('%d %s' % k for k in known),
           'def inboundKnownTypes : List Nat := [%s]' % ', '.join(str(k[0]) for k in known), '',
+          '/-- how `InboundOnionPayload::read` decodes the VALUE of each typed record (macro entry `encoding:` / the declared field type) -/',
+          'def inboundEnc : List (Nat × ValEnc) := [%s]' % ', '.join('(%d, %s)' % e for e in rencs), '',
           '/-- the custom-TLV closure keeps a record of unknown type iff NOT `msg_type < %s` -/' % mm.group(1),
           'def customTlvMin : Nat := %s' % em0.e(parse_expr(mm.group(1))), '',
           '/-- which typed fields a decoded stream filled -/', 'structure InboundPresence where']
@@ -368,6 +455,7 @@ def main(out_path):
          '   Regenerated on every check.  Hop payload encoders (every arm of the two `Writeable` impls outside cfg(test)),',
          '   RecipientCustomTlvs::new, and the reader\'s known types / custom closure / kind decision. -/',
          'import LdkModel.Model.OnionPayload', 'set_option linter.unusedVariables false', 'namespace Ldk.OnionPayload', 'open Ldk.Onion (Bytes)', '']
+    check_final_onion_hop_data(msgs); check_hzbd(rd('lightning/src/util/ser.rs'))
     meta = writers(L, msgs)
     ent = {}
     for ctor, tag, fields, kinds, types, synth, has_extra, _ in meta:
